@@ -9,7 +9,8 @@
 //	U <init> <op>;<op>;…  |  <rec0>;<rec1>;…      ops without element values: a u p l c k<i>
 //	rec: <ret>/<head>,<n>,<len(vs)>/<Len>,<IsEmpty>/<len(Slice)>/<Each calls>/<Each calls when stopped after Len/2+1>/<Peek ok flags>
 //
-// init: z (zero value), n (New()), s<k> (NewSize(k)).
+// init: z (zero value), n (New()), s<k> (NewSize(k)); s<k>! = NewSize(k) with k > 2^48 panicked:
+// the allocation was refused by the runtime (oracle annotation, recomputed on replay).
 // op:   a<v> Add(v)   u<v> Push(v)   p Pop()   l PopLast()   c Clear()   k<i> Peek(i), any int
 //
 //	An Add/Push that regrew the buffer carries the capacity chosen by append as an ORACLE
@@ -67,6 +68,7 @@ func ints(xs []int) string {
 
 func newSess(init string) *sess {
 	s := &sess{init: init, next: 1, tags: map[string]bool{}}
+	size := 0
 	res := tr.Catch(func() {
 		switch {
 		case init == "z":
@@ -75,16 +77,21 @@ func newSess(init string) *sess {
 		case init == "n":
 			s.q = queue.New[int]()
 		case strings.HasPrefix(init, "s"):
-			k, err := strconv.Atoi(init[1:])
+			k, err := strconv.Atoi(strings.TrimSuffix(init[1:], "!"))
 			if err != nil {
 				panic("bad init " + init)
 			}
+			s.init = "s" + strconv.Itoa(k)
+			size = k
 			s.q = queue.NewSize[int](k)
 		default:
 			panic("bad init " + init)
 		}
 	})
 	if res != "" {
+		if size > allocMayFail {
+			s.init += "!"
+		}
 		s.recs = append(s.recs, res)
 		s.dead = true
 		return s
@@ -92,6 +99,11 @@ func newSess(init string) *sess {
 	s.record("-")
 	return s
 }
+
+// allocMayFail: beyond this many slots (2^48, the Go runtime's maxAlloc in bytes) whether
+// make([]T, n) succeeds is the runtime's decision, not the queue's: a NewSize that panics there is
+// recorded in the INPUT as an oracle annotation (s<k>!) and nothing is demanded of it.
+const allocMayFail = 1 << 48
 
 // observe renders every observable of the queue (Slice first, then poisoned).
 func (s *sess) observe(ret string) string {
@@ -374,6 +386,7 @@ type usess struct {
 
 func newUSess(init string) *usess {
 	s := &usess{init: init, tags: map[string]bool{}}
+	size := 0
 	res := tr.Catch(func() {
 		switch {
 		case init == "z":
@@ -382,10 +395,12 @@ func newUSess(init string) *usess {
 		case init == "n":
 			s.q = queue.New[struct{}]()
 		case strings.HasPrefix(init, "s"):
-			k, err := strconv.Atoi(init[1:])
+			k, err := strconv.Atoi(strings.TrimSuffix(init[1:], "!"))
 			if err != nil {
 				panic("bad init " + init)
 			}
+			s.init = "s" + strconv.Itoa(k)
+			size = k
 			s.q = queue.NewSize[struct{}](k)
 			if k > 1<<62 {
 				s.tags["u-capacity-above-2^62"] = true
@@ -397,6 +412,10 @@ func newUSess(init string) *usess {
 		}
 	})
 	if res != "" {
+		if size > allocMayFail {
+			s.init += "!"
+			s.tags["u-alloc-refused"] = true
+		}
 		s.recs = append(s.recs, res)
 		s.dead = true
 		return s
